@@ -24,7 +24,9 @@ CHECKS = [
 ]
 GENERIC = (" Sonic's single-point flow (keys, commitments, proofs, decisions and mutated verifier runs) is compared with its extracted model as Marlin's is; "
            "so are Hyrax's and IPA's single-point flows (free-module view over the published key; sponge and hash challenges from recorded tapes). "
-           "The other schemes and paths behind the PolynomialCommitment trait (PST13 commit/open, univariate/multilinear Ligero, Brakedown, IPA/Hyrax batches) are "
+           "Univariate Ligero's single-polynomial flow (opened vectors, queried columns, indices, value, decisions on the honest proof, a false value and "
+           "mutated proofs) is compared with its model, in which column hash and Merkle tree are an ideal vector commitment. "
+           "The other schemes and paths behind the PolynomialCommitment trait (PST13 commit/open, multilinear Ligero, Brakedown, IPA/Hyrax batches) are "
            "exercised by the same generated histories and judged by implementation-level oracles (supporting search, not proof).")
 CHECKS += [
     {"property_id": "C02",
